@@ -18,6 +18,8 @@ type c09Cmd struct {
 	// GiveUp: the caller's context ends while the last scripted (retryable)
 	// outcome is handled, so the call returns an error without a final answer
 	GiveUp bool
+	// Expired: the caller's context is already finished when the call is made
+	Expired bool
 }
 
 type c09Hist struct {
@@ -100,6 +102,7 @@ func c09Gen(tier string, seed int64) []ev.Case {
 	}
 	cs = append(cs, ev.MkCase("batch", c09Batch{H: -1, D: gd, Seed: seed}))
 	cs = append(cs, ev.MkCase("batch", c09Batch{H: -2, D: gd, Seed: seed}))
+	cs = append(cs, ev.MkCase("batch", c09Batch{H: -3, D: gd, Seed: seed}))
 	return cs
 }
 
@@ -133,9 +136,32 @@ func c09Exec(run *ev.Run, c ev.Case) {
 				if k == "sl-newsession" {
 					sc, giveUp = nil, false
 				}
-				h.Cmds = append(h.Cmds, c09Cmd{Kind: k, Script: sc, GiveUp: giveUp})
+				expired := k != "sl-newsession" && r.Intn(10) == 0
+				if expired {
+					sc, giveUp = nil, false
+				}
+				h.Cmds = append(h.Cmds, c09Cmd{Kind: k, Script: sc, GiveUp: giveUp, Expired: expired})
 			}
 			c09History(run, h)
+			return
+		}
+		if b.H == -3 {
+			// calls made with a context that is already finished, between ordinary commands
+			kinds := []string{"devid", "authcaps", "chassis", "raw", "sl-guid", "sl-authcaps"}
+			idx := 0
+			for _, k1 := range kinds {
+				for _, k2 := range kinds[:4] {
+					for n := 1; n <= 3; n++ {
+						idx++
+						cmds := []c09Cmd{{Kind: k2, Script: c09Scripts(1)[idx%len(c09Scripts(1))]}}
+						for i := 0; i < n; i++ {
+							cmds = append(cmds, c09Cmd{Kind: k1, Expired: true})
+						}
+						cmds = append(cmds, c09Cmd{Kind: k2}, c09Cmd{Kind: kinds[idx%4], Script: []string{"busy"}})
+						c09History(run, c09Hist{Suite: idx % 9, Cmds: cmds})
+					}
+				}
+			}
 			return
 		}
 		if b.H == -2 {
@@ -264,12 +290,24 @@ func c09History(run *ev.Run, h c09Hist) {
 		if cmd.GiveUp && len(cmd.Script) > 0 {
 			cancelAt = len(cmd.Script)
 		}
+		if cmd.Expired {
+			inner := call
+			call = func(ctx context.Context) (ipmi.CompletionCode, error) {
+				c, cancel := context.WithCancel(ctx)
+				cancel()
+				return inner(c)
+			}
+		}
 		res := se.Run(cmd.Script, okBody, minBody, cancelAt, len(cmd.Script)+4, call)
+		if cmd.Expired {
+			nontrivial = true
+			run.Event("calls-with-finished-context", 1)
+		}
 		if res.Panic != nil {
 			run.Violation("C09:panic:"+panicSite(res.Stack), fmt.Sprintf("command %d (%s, script %v) panicked: %v\n%s", ci, cmd.Kind, cmd.Script, res.Panic, trimStack(res.Stack)), cs, nil)
 			return
 		}
-		sig += cmd.Kind[:2] + strings.Join(cmd.Script, ",") + fmt.Sprint(cmd.GiveUp) + ";"
+		sig += cmd.Kind[:2] + strings.Join(cmd.Script, ",") + fmt.Sprint(cmd.GiveUp, cmd.Expired) + ";"
 		if len(res.Sends) != 1 {
 			nontrivial = true
 		}
@@ -316,6 +354,8 @@ func c09History(run *ev.Run, h c09Hist) {
 			key := "C09:counter-disagrees"
 			if cmd.Kind == "serfail" {
 				key = "C09:serialise-failure-burns-seq"
+			} else if cmd.Expired {
+				key = "C09:finished-context-burns-seq"
 			}
 			run.Violation(key, fmt.Sprintf("after command %d (%s, script %v): session counter %d but %d in-session datagrams were transmitted", ci, cmd.Kind, cmd.Script, got, inSession), cs, nil)
 			return
